@@ -59,6 +59,18 @@ def arities(name, max_nary=4):
     return list(range(2, max_nary + 1))
 
 
+def legal_arity(name, k):
+    """Can the operator of this type be applied to k operands at all (the library's operators raise TypeError otherwise)?"""
+    if name == 'INPUT':
+        return k == 0
+    cls = ORACLE[name][0]
+    if cls == ANY:
+        return True
+    if cls[0] == 'fixed':
+        return k == cls[1]
+    return k >= cls[1]
+
+
 def fn(name):
     return ORACLE[name][1]
 
